@@ -9,22 +9,33 @@
 // the extreme ints, node forms with fresh and previously removed nodes; after
 // every operation Len, Front, Back, the Next-chain, All and Get must describe
 // the same sequence (slist.go).
+// Both: runs of operations with no observation in between, then one observer
+// drawn at random looks first (windows.go); sequences from All() kept and used
+// later, twice, re-entrantly, interleaved, with a panicking yield (kept.go);
+// lists of 15..65537 nodes (big.go).
 package main
 
 import "verif/ev"
 
 func main() {
 	r := ev.New("C13")
-	r.Rule("one case = a seeded operation sequence. dlist/mix, dlist/copy: 8..160 operations (Push*/Insert*/Insert*Node*/Remove/Move*/Push*DList/Init/Value writes) over 1..3 DLists, each a never-initialised zero value or NewDoubly(), node and mark drawn from members, members of another list, removed nodes, never-inserted nodes and nodes orphaned by another list's Init; dlist/small: for one size 0..5 every operation x every node/mark choice on a fresh fixture + 3 random operations; slist/mix: 8..160 operations with indices weighted to -1, 0, len-1, len, len+1, +-2 and Min/MaxInt; slist/ends: for one size 0..6 and one of 5 build recipes every index-based operation at every index (Swap: every pair) + tail-dependent follow-ups. distinct = distinct hash of the (operation, list, handle ids / indices, value) sequence; non-trivial = at least two operations that really changed a list relative to an existing node or index (effective insert/move/remove/copy/swap)")
+	r.Rule("one case = a seeded operation sequence. dlist/mix, dlist/copy: 8..160 operations (Push*/Insert*/Insert*Node*/Remove/Move*/Push*DList/Init/Value writes) over 1..3 DLists, each a never-initialised zero value or NewDoubly(), node and mark drawn from members, members of another list, removed nodes, never-inserted nodes and nodes orphaned by another list's Init; dlist/small: for one size 0..5 every operation x every node/mark choice on a fresh fixture + 3 random operations; slist/mix: 8..160 operations with indices weighted to -1, 0, len-1, len, len+1, +-2 and Min/MaxInt; slist/ends: for one size 0..6 and one of 5 build recipes every index-based operation at every index (Swap: every pair) + tail-dependent follow-ups; dlist/window, slist/window: 2..16 runs of 2..12 operations during which nothing is observed (only the mutators' own results are compared; SList: at most one Get in front of or inside the run), possibly as the very first thing that happens to a never-initialised zero value, then one observer drawn at random looks first, then everything is compared; dlist/kept, slist/kept: 10..40 operations during which sequences returned by All() are kept and used later in one of 7 ways (twice, re-entered from their own yield, another one run inside the yield, two iter.Pull iterations advanced alternately, abandoned then rerun, yield that panics followed by more operations); dlist/big, slist/big: a list of 2^k-1, 2^k or 2^k+1 nodes (k = 4..10, 12, 16), 8..14 operations at the ends, the middle and next to power-of-two positions, whole-list copies onto another list and onto itself. distinct = distinct hash of the (operation, list, handle ids / indices, value) sequence; non-trivial = at least two operations that really changed a list relative to an existing node or index (effective insert/move/remove/copy/swap)")
 	r.Assume("container/list of the Go standard library is the specification of DList; a node-form insert (PushFrontNode, PushBackNode, InsertNodeBefore, InsertNodeAfter), which container/list does not have, is modelled as the value-form insert of the node's value with the golib node re-paired to the new element")
 	r.Assume("only nodes that are in no list (never inserted, or removed) are handed to the node-form inserts, and a node orphaned by l.Init() is never handed back to l itself (container/list is undefined there); nil nodes are never passed (documented precondition)")
 	r.Assume("SList: the specification is a Go slice; Get/Remove/Swap reject out-of-range indices (nil / no change), InsertAt/InsertNodeAt clamp (i<=0 front, i>=len back) as documented; after Swap the two positions may have exchanged either their values or their nodes")
+	r.Assume("a sequence returned by All() may be kept: whenever it is run to the end while no operation changes the list, it yields the values the list holds front-to-back at that time (not at the time All() was called), any number of times and re-entrantly; the yield functions of the harness never modify a list")
 	opt := ev.Opt{HangViolation: true, MaxCaseSeconds: 120}
 	r.Cases("dlist/mix", r.N(30000, 1500000), opt, dlistMix)
 	r.Cases("dlist/copy", r.N(6000, 300000), opt, dlistCopy)
 	r.Cases("dlist/small", r.N(1200, 40000), opt, dlistSmall)
 	r.Cases("slist/mix", r.N(30000, 1500000), opt, slistMix)
 	r.Cases("slist/ends", r.N(1200, 40000), opt, slistEnds)
+	r.Cases("dlist/window", r.N(12000, 500000), opt, dlistWindow)
+	r.Cases("slist/window", r.N(12000, 500000), opt, slistWindow)
+	r.Cases("dlist/kept", r.N(8000, 300000), opt, dlistKept)
+	r.Cases("slist/kept", r.N(8000, 300000), opt, slistKept)
+	r.Cases("dlist/big", r.N(96, 1000), opt, dlistBig)
+	r.Cases("slist/big", r.N(96, 1000), opt, slistBig)
 	// anti-vacuity floors (a fraction of what the quick tier observes at every seed)
 	for k, v := range map[string]int64{
 		"dlist_ops": 500000, "dlist_traversals_compared": 3000000,
@@ -42,8 +53,31 @@ func main() {
 		"slist_remove_effective": 100000, "slist_remove_rejected": 20000, "slist_removefront_last_element": 2000, "slist_removefront_empty": 500,
 		"slist_swap_effective": 10000, "slist_swap_rejected": 20000, "slist_node_reinserted_after_removal": 20000,
 		"slist_checked_empty": 10000, "slist_drained_to_empty": 500, "slist_all_early_break": 80000, "slist_ends_fixtures": 20000,
+		// unobserved-operation windows (windows.go)
+		"dlist_windows": 30000, "dlist_window_ops": 200000, "dlist_window_list_emptied_by_removes": 2000, "dlist_window_first_on_empty_list": 5000,
+		"dlist_window_first/Len": 3000, "dlist_window_first/Front": 3000, "dlist_window_first/Back": 3000, "dlist_window_first/All": 3000,
+		"dlist_window_first/Back-Prev-walk": 3000, "dlist_window_first/Front-Next-walk": 3000, "dlist_window_first/node-Next-Prev": 3000,
+		"dlist_unobserved_zero_value_first_op": 1500, "dlist_unobserved_zero_value_first_op/PushFrontNode": 150, "dlist_unobserved_zero_value_first_op/PushBackNode": 150,
+		"dlist_unobserved_zero_value_first_op/PushBackDList": 100, "dlist_unobserved_zero_value_first_op/PushFrontDList": 100,
+		"slist_windows": 30000, "slist_window_ops": 200000,
+		"slist_window_first/Len": 3000, "slist_window_first/Front": 3000, "slist_window_first/Back": 3000, "slist_window_first/All": 3000,
+		"slist_window_first/Front-Next-walk": 3000, "slist_window_first/Get": 8000,
+		"slist_window_probe_gets": 10000, "slist_window_first_get_at_or_behind_probe": 5000, "slist_window_shift_in_front_of_probe": 20000, "slist_window_remove_last": 10000,
+		// kept sequences (kept.go)
+		"dlist_kept_uses": 20000, "dlist_kept_run_after_change": 20000, "dlist_kept_run_after_front_changed": 15000,
+		"dlist_kept_nested_runs": 5000, "dlist_kept_pull_steps": 50000, "dlist_kept_yield_panics": 2500,
+		"dlist_kept_taken_from_untouched_zero_value": 800, "dlist_kept_two_lists_interleaved": 800,
+		"slist_kept_uses": 20000, "slist_kept_run_after_change": 20000, "slist_kept_run_after_front_changed": 15000,
+		"slist_kept_nested_runs": 5000, "slist_kept_pull_steps": 50000, "slist_kept_yield_panics": 2500, "slist_kept_taken_from_untouched_list": 1000,
+		// long lists (big.go)
+		"dlist_big_cases": 60, "dlist_big_cases_ge_65535": 1, "dlist_big_copies": 100, "dlist_big_self_copies_ge_64": 15, "dlist_big_copies_ge_4096": 5,
+		"slist_big_cases": 60, "slist_big_cases_ge_65535": 1, "slist_big_index_ge_64_in_range": 100,
 	} {
 		r.Require(k, v)
+	}
+	for _, m := range keptModeName {
+		r.Require("dlist_kept_use/"+m, 2500)
+		r.Require("slist_kept_use/"+m, 2500)
 	}
 	r.Finish()
 }
